@@ -134,8 +134,15 @@ class World:
             def body():
                 try:
                     Handler(sock, addr, iface, rec)
+                except Exception as e:   # noqa  (socketserver would log it and close the socket)
+                    rec['exc'] = repr(e)
+                    try:
+                        sock.close()
+                    except OSError:
+                        pass
                 finally:
                     rec['done'] = True
+                    rec['done_seq'] = world.sim.next_seq()
             import threading
             th = threading.Thread(target=body, name=f'conn{idx}')
             rec['thread'] = th
@@ -160,11 +167,20 @@ class Handler(TCPRequestHandler):
 
     def __init__(self, request, client_address, server, rec):
         self._idx = rec['idx']
+        self._rec = rec
+        self.server_sim = kernel.SIM
         rec['handler'] = self
         super().__init__(request, client_address, server)
 
     def __hash__(self):
         return self._idx
+
+    def send_reply(self, data):
+        rec = self._rec
+        if rec['done']:
+            # the handler has finished (connection closed and removed): who still sends to it?
+            rec.setdefault('sends_after_done', []).append((self.server_sim.next_seq(), data))
+        return super().send_reply(data)
 
     def __eq__(self, other):
         return self is other
@@ -174,7 +190,9 @@ def forget_classes(*classes):
     """drop per-class caches frappy keeps in module globals"""
     from frappy.modulebase import wrapperClasses
     for cls in classes:
-        wrapperClasses.pop(cls, None)
+        for c in cls.__mro__:
+            if c.__module__.startswith(('sim.', 'checks.')):
+                wrapperClasses.pop(c, None)
 
 
 @contextlib.contextmanager
